@@ -126,6 +126,7 @@ type c07Trace struct {
 
 func newC07Runner(bg *[65536]uint8) *c07Runner {
 	r := &c07Runner{mem: obs.NewMem(bg), io: &obs.IO{}, frags: c07Frags(), kinds: c07Kinds()}
+	r.mem.Limit = 500000 // deterministic watchdog (a whole run makes < 10^4 accesses)
 	r.cpu.Memory = r.mem
 	r.cpu.IO = r.io
 	r.base = &c07Trace{mem: obs.NewMem(bg)}
